@@ -38,7 +38,7 @@ from fractions import Fraction
 
 from verifpy import (Unit, Result, Reject, run_hypothesis, replay_main, WORK, SEED, KNOWN, param, tool, run)
 
-ANSI = re.compile(r"\x1b\[[0-9;]*m")
+ANSI = re.compile(r"\x1b\[[0-9;]*m|\x0f")
 POINTWISE = ["Absolute", "Relative", "RelativeAndAbsolute", "Mixed"]
 KEYNAME = {"Absolute": "absolute", "Relative": "relative", "RelativeAndAbsolute": "relabs", "Mixed": "mixed"}
 EPS_REL = 100. * sys.float_info.min  # the `eps` of RelativeComparison.cxx (denominator floor)
